@@ -323,6 +323,8 @@ def gen_plan(prop, seed, tier):
                     op["nodes"] = [["end", rng.choice(["lo", "hi"])]]
                 elif r < 0.85:
                     op["iterfail"] = rng.randint(0, 2)
+                elif r < 0.93:
+                    op["longiter"] = rng.randint(33, 70)     # a one-shot generator that yields many valid nodes, then raises
         elif k == "remove":
             op = {"op": "remove", "t": t, "via": rng.choice(["method", "isub"]),
                   "nodes": [["iknot", rng.randrange(8)] for _ in range(rng.randint(1, 3))]}
@@ -347,6 +349,9 @@ def gen_plan(prop, seed, tier):
                   "a": M.enc(Fraction(rng.randint(-128, 128), rng.choice([1, 2, 4, 8, 16, 64])))}
             if cls == "frac" and rng.random() < 0.5:
                 op["a"] = M.enc(_rand_value(rng))
+            if cls != "float" and rng.random() < 0.08:
+                # a translation that dwarfs the knot spacing (time stamps, large offsets): every clause is translation invariant
+                op["a"] = M.enc(Fraction(rng.choice([1700000000, -100000000000, 4294967296, 10 ** 12])))
             if faulty:
                 r = rng.random()
                 if r < 0.5:
@@ -720,7 +725,7 @@ class KVEngine:
                         pool[s] = None
                         continue
                 else:
-                    if max(abs(x.numerator) + x.denominator for x in L) > 10 ** 12:
+                    if max(abs(x.numerator) + x.denominator for x in L) > 10 ** 30:
                         ctx.count("slot_retired_size")
                         pool[s] = None
                         continue
@@ -1022,7 +1027,23 @@ class KVEngine:
         if "iterfail" in op:
             arg = FailingIterable(vals, op["iterfail"] % (len(vals) + 1), ctx)
             must = "any"
-        if op["via"] == "iadd" and "iterfail" not in op:
+        if "longiter" in op:
+            ks = M.kv_knots(L)
+            a, b = ks[0], ks[1]
+            count = op["longiter"]
+            cls = self.cls_of(kv, cfg["cls"])
+            if cls == "float" or (b - a) / (count + 1) < Fraction(1, 10 ** 4) * 2:
+                return {"res": "skip"}
+            good = [self.mk(a + (b - a) * Fraction(j, count + 1), cls) for j in range(1, count + 1)]
+
+            def stream():
+                for x in good:
+                    yield x
+                ctx.fault("iterator-raises-after-many-nodes")
+                raise InjectedFault("node stream failed after %d valid nodes" % count)
+            arg = stream()      # a true one-shot iterator (iter(arg) is arg)
+            must = "any"
+        if op["via"] == "iadd" and "iterfail" not in op and "longiter" not in op:
             def call():
                 k = kv
                 k += arg
